@@ -50,7 +50,9 @@ def combine_patches(diffs):
 def adjust_patch_level(target_path, common_path, diff):
     n = len(target_path)
     assert common_path[:n] == target_path
-    if n == len(target_path):
+    if not diff:
+        return []
+    if n == len(common_path):
         return diff
     remainder_path = tuple(reversed(common_path[n:]))
     newdiff = []
@@ -58,7 +60,7 @@ def adjust_patch_level(target_path, common_path, diff):
         nd = d
         assert nd is not None
         for key in remainder_path:
-            nd = op_patch(key, nd)
+            nd = op_patch(key, [nd])
         newdiff.append(nd)
     return newdiff
 
